@@ -25,6 +25,24 @@ type Job struct {
 	Kind     string // "sched" (default) or "direct" (Run does its own enumeration)
 	Run      func(tier string, budget int) *DirectReport
 	NoMapOrd bool // do not explore alternative map iteration orders
+	Shards   int  // >1: the job's variant list is split round-robin over this many independent jobs (run in parallel by the driver)
+	Shard    int  // which shard this job is (set by Register)
+}
+
+// CurShard/NShards are set by the runner before a job is explored or replayed; scenario
+// bodies pick their variant with chooseVariant so that each shard enumerates its own slice.
+var CurShard, NShards = 0, 1
+
+// chooseVariant is the data choice "which variant of the scenario" restricted to the current shard.
+func chooseVariant(n int) int {
+	if NShards <= 1 {
+		return vsched.Choose(n)
+	}
+	m := (n - CurShard + NShards - 1) / NShards
+	if m <= 0 {
+		panic("scen: shard without variants (Shards > number of variants)")
+	}
+	return CurShard + NShards*vsched.Choose(m)
 }
 
 var Jobs []*Job
@@ -45,6 +63,20 @@ func Register(j *Job) {
 	if j.BudgetT == 0 {
 		j.BudgetT = j.Budget * 10
 	}
+	if n, ok := shardTable[j.Name]; ok && j.Shards == 0 {
+		j.Shards = n
+	}
+	if j.Shards > 1 {
+		for i := 0; i < j.Shards; i++ {
+			c := *j
+			c.Shard = i
+			c.Name = fmt.Sprintf("%s#s%d", j.Name, i)
+			c.Desc = fmt.Sprintf("%s [shard %d of %d of the variant list]", j.Desc, i+1, j.Shards)
+			Jobs = append(Jobs, &c)
+		}
+		return
+	}
+	j.Shards = 1
 	Jobs = append(Jobs, j)
 }
 
@@ -113,4 +145,23 @@ func sortedKeys[V any](m map[string]V) []string {
 	}
 	sort.Strings(ks)
 	return ks
+}
+
+// shardTable: how many parallel shards the variant list of a job is split into (each shard is a
+// job of its own with the full budget; the driver runs up to 16 at a time).
+var shardTable = map[string]int{
+	"C02/engine/lifecycle-race": 5, "C02/engine/lifecycle-race-large": 7,
+	"C04/engine/spawn-race": 5, "C04/engine/spawn-race-large": 7,
+	"C04/hist/mixed-len3-mode0": 6, "C04/hist/mixed-len3-mode1": 10, "C04/hist/mixed-len4-mode0": 8, "C04/hist/mixed-len4-mode1": 8,
+	"C05/hist/len3-mode0-delayfalse": 3, "C05/hist/len3-mode0-delaytrue": 4, "C05/hist/len3-mode1-delayfalse": 4, "C05/hist/len3-mode1-delaytrue": 5,
+	"C05/hist/len4-mode0-delayfalse": 4, "C05/hist/len4-mode0-delaytrue": 4, "C05/hist/len4-mode1-delayfalse": 4, "C05/hist/len4-mode1-delaytrue": 4,
+	"C05/hist/lifecycle-handler-panics-mode0": 4, "C05/hist/lifecycle-handler-panics-mode1": 4,
+	"C05/hist/lifecycle-handler-panics-seq-mode0": 8, "C05/hist/lifecycle-handler-panics-seq-mode1": 8,
+	"C06/hist/exhaust-long-mode0": 4, "C06/hist/exhaust-long-mode1": 4,
+	"C08/engine/tree-shutdown": 8, "C08/engine/tree-shutdown-large": 6,
+	"C08/engine/child-self-stop-races-shutdown": 2, "C08/engine/child-crash-races-shutdown": 2,
+	"C08/engine/third-party-poison-races-shutdown": 2, "C08/engine/child-max-restarts-races-shutdown": 2,
+	"C10/engine/concurrent-spawn": 4, "C10/engine/concurrent-spawn-3": 7,
+	"C11/engine/request-reply": 5, "C11/engine/multi-reply": 6, "C11/engine/three-requesters": 3,
+	"C09/engine/targets-x-messages": 4, "C09/engine/gone-subscriber": 4,
 }
